@@ -105,8 +105,22 @@ def blanks(p):
     if sp is None or sp["width"] is None:
         return (False, False)
     if sp["align"] in ("<", "-"):
-        return (False, True)
-    return (True, False)        # right-aligned value that fits its field
+        return (False, not FULL[0])
+    return (not FULL[0], False)        # right-aligned value that fits its field with room to spare - unless the world is one of values that fill their fields
+
+
+FULL = [False]
+
+
+class full_fields:
+    """with full_fields(): ... - the values of the world are as wide as their fields allow (the format's field limit): a fixed-width field carries no
+    padding, so neighbouring fields that are not separated by literal blanks run together under split()"""
+    def __enter__(self):
+        self.old = FULL[0]
+        FULL[0] = True
+
+    def __exit__(self, *a):
+        FULL[0] = self.old
 
 
 def unpadded(p):
